@@ -32,8 +32,6 @@ def boot(lock_shim=False, numpy=False):
     if not numpy:
         # Make sure a stray numpy does not change the library's behaviour.
         sys.modules.setdefault("numpy", None)
-        if sys.modules.get("numpy") is not None:
-            pass
     if REPO in sys.path:
         sys.path.remove(REPO)
     sys.path.insert(0, REPO)
@@ -48,6 +46,23 @@ def boot(lock_shim=False, numpy=False):
         sched.install_lock_shims()
 
     import synced_collections  # noqa: E402
+
+    if lock_shim:
+        # The library binds ``from threading import RLock`` at import time: import every
+        # module that creates locks while the shim is in place, then restore threading.
+        import synced_collections.backends.collection_json  # noqa: F401
+        import synced_collections.backends.collection_mongodb  # noqa: F401
+        import synced_collections.backends.collection_redis  # noqa: F401
+        import synced_collections.backends.collection_zarr  # noqa: F401
+        from . import sched
+
+        sched.uninstall_lock_shims()
+        from synced_collections.backends.collection_json import BufferedJSONDict, JSONDict
+
+        if not isinstance(JSONDict._cls_lock, sched.CoopRLock) or not isinstance(
+            BufferedJSONDict._BUFFER_LOCK, sched.CoopRLock
+        ):
+            raise RuntimeError("lock shim bypassed: library locks are not cooperative")
 
     got = os.path.abspath(os.path.dirname(synced_collections.__file__))
     if got != LIB_DIR:
